@@ -94,3 +94,26 @@ Example interval_example :
   is_valid (override [(150, 50)] {| ifrom := Some 150; ito := None |}) 100 = true /\
   is_valid (override [(150, 50)] {| ifrom := Some 151; ito := None |}) 100 = false.
 Proof. vm_compute. repeat split; reflexivity. Qed.
+
+(* ---- compare_and_set is associative, so the order of collection does not matter at all ---- *)
+Lemma merge_assoc a b c : merge (merge a b) c = merge a (merge b c).
+Proof.
+  destruct a as [[fa|] [ta|]], b as [[fb|] [tb|]], c as [[fc|] [tc|]]; unfold merge; cbn [ifrom ito];
+  repeat match goal with |- context [if ?x <? ?y then _ else _] => destruct (Z.ltb_spec x y) end; cbn [ifrom ito];
+  try reflexivity; try (f_equal; f_equal; lia); try lia.
+Qed.
+Lemma merge_opt_assoc a b c : merge_opt (merge_opt a b) c = merge_opt a (merge_opt b c).
+Proof. destruct a, b, c; cbn [merge_opt]; try reflexivity. rewrite merge_assoc. reflexivity. Qed.
+Lemma merge_opt_none_r a : merge_opt a None = a.
+Proof. destruct a; reflexivity. Qed.
+Lemma fold_merge_opt_acc l : forall acc, fold_left merge_opt l acc = merge_opt acc (fold_left merge_opt l None).
+Proof.
+  induction l as [|x r IH]; intros acc; cbn [fold_left]; [rewrite merge_opt_none_r; reflexivity|].
+  rewrite IH. rewrite (IH (merge_opt None x)). cbn [merge_opt]. rewrite <- merge_opt_assoc. reflexivity.
+Qed.
+Lemma fold_merge_opt_app l1 l2 :
+  fold_left merge_opt (l1 ++ l2) None = merge_opt (fold_left merge_opt l1 None) (fold_left merge_opt l2 None).
+Proof. rewrite fold_left_app. apply fold_merge_opt_acc. Qed.
+Lemma fold_merge_opt_map {A} (g : A -> option interval) l : forall acc,
+  fold_left (fun a x => merge_opt a (g x)) l acc = fold_left merge_opt (map g l) acc.
+Proof. induction l as [|x r IH]; intros acc; cbn [fold_left map]; auto. Qed.
